@@ -118,15 +118,18 @@ Proof.
 Qed.
 
 (* the minimal encoding is one of them *)
-Lemma enc_varint_is_some_n f : forall v, (1 <= f)%nat -> v < 2 ^ (7 * N.of_nat f) -> exists n, (1 <= n <= f)%nat /\ enc_varint_aux f v = enc_varint_n n v.
+Lemma enc_varint_is_some_n f : forall v, (1 <= f)%nat -> v < 2 ^ (7 * N.of_nat f) ->
+  exists n, (1 <= n <= f)%nat /\ v < 2 ^ (7 * N.of_nat n) /\ enc_varint_aux f v = enc_varint_n n v.
 Proof.
   induction f as [|f IH]; intros v Hf Hv; [lia|]. cbn [enc_varint_aux].
-  destruct (N.ltb_spec v 128) as [Hlt|Hge]; [exists 1%nat; split; [lia|reflexivity]|].
+  destruct (N.ltb_spec v 128) as [Hlt|Hge]; [exists 1%nat; split; [lia|split; [exact Hlt|reflexivity]]|].
   destruct f as [|f']; [change (2 ^ (7 * N.of_nat 1)) with 128 in Hv; lia|].
-  assert (Hp : 2 ^ (7 * N.of_nat (S (S f'))) = 128 * 2 ^ (7 * N.of_nat (S f'))).
-  { rewrite (Nat2N.inj_succ (S f')), N.mul_succ_r, N.pow_add_r. change (2 ^ 7) with 128. lia. }
-  destruct (IH (v / 128) ltac:(lia) ltac:(apply N.div_lt_upper_bound; [lia|]; rewrite <- Hp; exact Hv)) as (n & Hn & En).
-  exists (S n). split; [lia|]. rewrite En. destruct n as [|n]; [lia|]. rewrite enc_varint_n_SS. reflexivity.
+  assert (Hp : forall k, 2 ^ (7 * N.of_nat (S k)) = 128 * 2 ^ (7 * N.of_nat k)).
+  { intros k. rewrite Nat2N.inj_succ, N.mul_succ_r, N.pow_add_r. change (2 ^ 7) with 128. lia. }
+  destruct (IH (v / 128) ltac:(lia) ltac:(apply N.div_lt_upper_bound; [lia|]; rewrite <- Hp; exact Hv)) as (n & Hn & Hvn & En).
+  exists (S n). split; [lia|]. split.
+  - rewrite Hp. pose proof (N.div_mod v 128 ltac:(lia)). pose proof (N.mod_lt v 128 ltac:(lia)). lia.
+  - rewrite En. destruct n as [|n]; [lia|]. rewrite enc_varint_n_SS. reflexivity.
 Qed.
 
 Example padded_varint_example :
